@@ -78,6 +78,9 @@ def groups(tier):
         out.append(('glue[%s]' % klass, ('glue', klass, tier)))
     out.append(('frame', ('frame',)))
     out.append(('points-concrete', ('pconc',)))
+    # Gradient / Jacobian of an x with several axes: every evaluation point differs from x.ravel() in at most one coordinate
+    # whatever the memory layout of x (generator shared with C03)
+    out.append(('layout[Gradient]', ('dep', 'C03', 'run_layout', (), {})))
     return out
 
 
@@ -520,6 +523,9 @@ def run_pconc():
     return {}
 
 def run_group(args):
+    if args[0] == 'dep':
+        import importlib
+        return getattr(importlib.import_module('props.' + args[1]), args[2])(*args[3], **args[4])
     if args[0] == 'pconc':
         return run_pconc()
     if args[0] == 'points':
@@ -533,6 +539,8 @@ def run_group(args):
 
 
 def replay_case(ob):
+    if ob['name'].startswith('layout[Gradient]/'):
+        return dict(kind='C03.layout')
     if ob['name'].startswith('points-concrete/'):
         return dict(kind='C05.pconc')
     import re
